@@ -383,6 +383,11 @@ type RunOpts struct {
 	AllowInvalid bool
 	InitState    bool // install state["s"]="" and state["l"]=&CloneList{}
 	TickCap      int
+	// ReuseOpts: pass the option VALUES (Memoize(true), MaxExpressions(n), ...) that were built
+	// for the previous call of this process again instead of building fresh ones - what a
+	// caller does who keeps opts := []Option{...} for a whole corpus. Only meaningful when the
+	// previous call had the same option set.
+	ReuseOpts bool
 }
 
 // ErrInfo describes one element of the returned error list.
